@@ -29,6 +29,7 @@ type Target struct {
 	FailShare bool
 	server.UnimplementedTargetServiceServer
 	rec  *Rec
+	name string
 	srv  *grpc.Server
 	Addr string
 }
@@ -46,11 +47,18 @@ func SplitTok(v string) (pre, tok string) {
 	return "", v
 }
 
-func StartGRPC(rec *Rec) *Target {
-	t := &Target{rec: rec}
+func StartGRPC(rec *Rec) *Target { return StartGRPCNamed(rec, "target", true) }
+
+// StartGRPCNamed: name goes into every Recv event ("srv"): "target" for the load target, "reflect" for a
+// server that is configured as reflection endpoint only (reflect_port) but ALSO implements the service, so
+// that load calls routed to it are visible.  withReflection = false: a target that cannot be reflected on.
+func StartGRPCNamed(rec *Rec, name string, withReflection bool) *Target {
+	t := &Target{rec: rec, name: name}
 	t.srv = grpc.NewServer(grpc.UnaryInterceptor(t.intercept))
 	server.RegisterTargetServiceServer(t.srv, t)
-	reflection.Register(t.srv)
+	if withReflection {
+		reflection.Register(t.srv)
+	}
 	l, err := net.Listen("tcp", "127.0.0.1:0")
 	if err != nil {
 		panic(err)
@@ -111,7 +119,7 @@ func (t *Target) intercept(ctx context.Context, req interface{}, info *grpc.Unar
 	}
 	// "/target.TargetService/Hello" -> "target.TargetService.Hello" (the form ammo uses)
 	m := strings.Replace(strings.TrimPrefix(info.FullMethod, "/"), "/", ".", 1)
-	t.rec.Emit(E{"ev": "Recv", "proto": "grpc", "method": m, "fields": fields, "md": mds, "toks": toks})
+	t.rec.Emit(E{"ev": "Recv", "proto": "grpc", "srv": t.name, "method": m, "fields": fields, "md": mds, "toks": toks})
 	return h(ctx, req)
 }
 
